@@ -45,6 +45,7 @@ type Client struct {
 	// SlowRead makes the read loop pause this long after every data message (a slow client:
 	// the server-side send queue fills up)
 	SlowRead time.Duration
+	stallTo  time.Time // the read loop does not read before this instant (a stalled client)
 }
 
 const ioTimeout = 20 * time.Second
@@ -122,6 +123,13 @@ func (c *Client) readLoop() {
 	}()
 	head := make([]byte, codec.HeadLength)
 	for {
+		c.mu.Lock()
+		wait := time.Until(c.stallTo)
+		c.mu.Unlock()
+		if wait > 0 {
+			time.Sleep(wait)
+			continue
+		}
 		if _, err := io.ReadFull(c.conn, head); err != nil {
 			return
 		}
@@ -237,6 +245,14 @@ func (c *Client) Closed() bool {
 func (c *Client) SetSlowRead(d time.Duration) {
 	c.mu.Lock()
 	c.SlowRead = d
+	c.mu.Unlock()
+}
+
+// Stall makes the read loop stop reading for d from now on (it finishes the message it is
+// reading; the kernel buffers and then the server's send queue fill up meanwhile).
+func (c *Client) Stall(d time.Duration) {
+	c.mu.Lock()
+	c.stallTo = time.Now().Add(d)
 	c.mu.Unlock()
 }
 
